@@ -129,7 +129,16 @@ func (b *Batch) Get(key []byte) ([]byte, error) {
 	if pos == nil {
 		return nil, ErrKeyNotFound
 	}
-	value, err := b.db.activeFile.ReadRecordValue(pos)
+	// 记录可能位于旧数据文件中, 需根据位置信息中的文件 id 选择数据文件
+	// 批处理期间已持有 DB 的写锁, 此处不能再加读锁
+	dataFile := b.db.activeFile
+	if pos.Fid != dataFile.ID {
+		dataFile = b.db.olderFiles[pos.Fid]
+	}
+	if dataFile == nil {
+		return nil, ErrDataFileNotFound
+	}
+	value, err := dataFile.ReadRecordValue(pos)
 	if err != nil {
 		return nil, err
 	}
